@@ -360,11 +360,12 @@ static std::string gen_case(const std::string &prop, const std::string &kind, co
     else if (k == "sortlist") { unsigned n = c.pick(3); val = n ? "" : "-"; for (unsigned q = 0; q < n; q++) val += std::string(q ? "," : "") + gen_ip(c, c.chance(1, 3)) + "/" + std::to_string(8 + c.pick(17)); }
     else if (k == "servers4") { unsigned n = c.pick(4); val = n ? "" : "-"; for (unsigned q = 0; q < n; q++) val += std::string(q ? "," : "") + gen_ip(c, false); }
     o += "o " + k + " " + val + "\n"; }
+  auto gen_port = [&](bool allow_zero) -> std::string { static const int pp[] = {53, 5353, 1, 65535, 853}; unsigned k = c.pick(8); if (k < 5) return std::to_string(pp[k]); if (k == 5 && allow_zero) return "0"; return std::to_string(1 + c.pick(65535)); };
   unsigned nsets = c.pick(3);
   for (unsigned i = 0; i < nsets; i++) { static const char *how[] = {"csv", "portscsv", "legacy", "legacyports"}; std::string h = how[c.pick(4)]; std::string csv; unsigned n = 1 + c.pick(4);
     for (unsigned q = 0; q < n; q++) { std::string ip = gen_ip(c); bool v6 = ip.find(':') != std::string::npos; std::string item;
-      if (h == "legacy") item = ip; else if (h == "legacyports") item = ip + "|" + std::to_string(c.chance(1, 2) ? 0 : 1 + c.pick(65535)) + "|" + std::to_string(c.chance(1, 2) ? 0 : 1 + c.pick(65535));
-      else { unsigned f = c.pick(5); if (f == 0) item = ip; else if (f == 1) item = "[" + ip + "]:" + std::to_string(1 + c.pick(65535)); else if (f == 2) item = "dns://" + (v6 ? "[" + ip + "]" : ip) + ":" + std::to_string(1 + c.pick(65535)) + "?tcpport=" + std::to_string(1 + c.pick(65535)); else if (f == 3 && !v6) item = ip + ":" + std::to_string(1 + c.pick(65535)); else item = ip; }
+      if (h == "legacy") item = ip; else if (h == "legacyports") item = ip + "|" + gen_port(true) + "|" + gen_port(true);
+      else { unsigned f = c.pick(5); if (f == 0) item = ip; else if (f == 1) item = "[" + ip + "]:" + gen_port(false); else if (f == 2) item = "dns://" + (v6 ? "[" + ip + "]" : ip) + ":" + gen_port(false) + "?tcpport=" + gen_port(false); else if (f == 3 && !v6) item = ip + ":" + gen_port(false); else item = ip; }
       csv += (q ? "," : "") + item; }
     o += "set " + h + " " + csv + "\n"; }
   if (c.chance(1, 4)) o += "sl " + hexs(gen_ip(c, false) + "/" + std::to_string(8 + c.pick(17)) + (c.chance(1, 2) ? " " + gen_ip(c, false) : "")) + "\n";
